@@ -98,3 +98,13 @@ Example C03_crash_restart_nonvacuous :
   full_acc nv3_cfg (log_of y) (mkFO 7 1 2 true 1 [mkFS 0 true 1 7 [8; 9; 10]]) = true /\
   full_mon nv3_cfg (log_of y) (mkFO 7 1 2 true 1 [mkFS 0 true 1 6 [7; 8; 9]]) = false.
 Proof. vm_compute. repeat split. eexists. split; reflexivity. Qed.
+
+(* Stop + Teardown with records read beyond the last ack: the store keeps the last acked position *)
+Example C03_stop_then_teardown_keeps_acked_position :
+  let y := run (mkM stop_cfg 100) (init_sys (mkM stop_cfg 100)) stop_schedule in
+  crash y 0 = (1, 2) /\ ereads 0 (log_of y) = [1; 2; 3; 4; 5] /\
+  reopened_at (mkM stop_cfg 100) (crash y) 0 = 2 /\
+  Mon_C03 true stop_cfg (log_of y) [(length (log_of y), 0, (1, 2))] = true /\
+  accepts stop_cfg stop_bad_log = false /\ Mon_C02 true stop_cfg stop_bad_log = false /\
+  Mon_C03 true stop_cfg stop_bad_log [] = false /\ Mon_C03 false stop_cfg stop_bad_log [] = false.
+Proof. exact stop_then_teardown_keeps_acked_position. Qed.
